@@ -14,7 +14,7 @@ def x_obligations(tier):
                 continue
             o.append(Obl(f"C16-get[{s},first=attrs#{a1}/enc#{e1}]", M, "get_vs_find", env={"VF_SI": str(si), "VF_A1": str(a1), "VF_E1": str(e1)}, timeout=T, path_timeout=200, family="C16-get",
                          bound="5 entities (3 with data) in the memfs model; get twice: first call fixed, second call's attribute list (3) and sid_encode (3) chosen by the solver; compared with FindInPaths.find"))
-        if tier == "thorough" or si in (0, 4, 8):
+        if tier == "thorough" or si in (0, 1, 4, 6, 8):
             o.append(Obl(f"C16-all[{s}]", M, "all_vs_find", env={"VF_SI": str(si)}, timeout=T, path_timeout=200, family="C16-all", bound="GetFromAll vs FindInAll, attribute list and encoder chosen by the solver"))
     o.append(Obl("C16-reach", M, "reach", timeout=100, expect="refute", family="C16-twin"))
     return o
